@@ -657,7 +657,7 @@ def gen_render(self, g):
         # highlights: full points and points with fewer coordinates than the tensor has ranks
         # several workers per picture, drawn from more names than the renderer has colours (ten)
         a["hl"] = {}
-        for w in g.sample(["PE"] + [f"PE{i}" for i in range(13)], g.choice([1, 1, 2, 4, 7])):
+        for w in g.sample(["PE"] + [f"PE{i}" for i in range(13)], g.choice([1, 1, 2, 4, 7, 11])):
             pts = []
             for _ in range(g.randint(1, 2)):
                 n = g.randint(1, sl.depth)
